@@ -105,6 +105,11 @@ func DrawSXG(c *core.Ctx, label string, uniq int) *LSXG {
 			l.RespHeaders = append(l.RespHeaders, HV{l.RespHeaders[len(l.RespHeaders)-1].Name, visible(c, label+".hval2", 1, 8)})
 		}
 	}
+	if c.Chance(label+".preEncoded", 1, 8) {
+		// the response was already content-coded before integrity protection is stacked on top
+		l.RespHeaders = append(l.RespHeaders, HV{"Content-Encoding", c.PickStr(label+".coding", "gzip", "br", "identity")})
+		c.Probe("response that already has a Content-Encoding")
+	}
 	l.DirectMap = c.Bool(label + ".directMap")
 	l.RS = rsChoices[c.Pick(label+".rs", len(rsChoices))]
 	k := c.Int(label+".records", 0, 3)
@@ -279,6 +284,27 @@ func (l *LSXG) Sign() (*signedexchange.Exchange, error) {
 // ChainBytes serializes the certificate chain served at CertURL.
 func ChainBytes(leaf *fixtures.Leaf, ocsp []byte) []byte {
 	chain, err := certurl.NewCertChain([]*x509.Certificate{leaf.Cert(), leaf.Issuer()}, ocsp, nil)
+	if err != nil {
+		panic(err)
+	}
+	var buf bytes.Buffer
+	if err := chain.Write(&buf); err != nil {
+		panic(err)
+	}
+	return buf.Bytes()
+}
+
+// ChainBytesOf serializes a chain of the given certificates (DER), OCSP on the first.
+func ChainBytesOf(ders [][]byte, ocsp []byte) []byte {
+	var certs []*x509.Certificate
+	for _, d := range ders {
+		c, err := x509.ParseCertificate(d)
+		if err != nil {
+			panic(err)
+		}
+		certs = append(certs, c)
+	}
+	chain, err := certurl.NewCertChain(certs, ocsp, nil)
 	if err != nil {
 		panic(err)
 	}
